@@ -253,6 +253,9 @@ func checkServerWire(c serverCase, o optSet) (string, string) {
 	}
 	wantCode, wantMsg, wantDetails := wantOf(c.Code, c.OKErr, c.Msg, c.Details)
 	if wantCode == 0 {
+		if o.mayReject(respSize) && tooLarge(err) {
+			return "", obs + " (response larger than the caller's receive limit: not judged)"
+		}
 		if err != nil {
 			return "ok-call-failed", obs + " client=" + err.Error()
 		}
